@@ -128,8 +128,40 @@ pub fn uri_of(path: &str) -> String {
     format!("file://{path}")
 }
 
+/// The same URI the way VS Code writes it: reserved characters percent-encoded.
+pub fn vscode_uri_of(path: &str) -> String {
+    let mut s = String::from("file://");
+    for c in path.chars() {
+        match c {
+            '+' | '@' | '(' | ')' | '[' | ']' | ',' | ';' | '=' | '&' | '$' | '!' | '\'' | '*' | ':' | ' ' | '%' => {
+                s.push_str(&format!("%{:02X}", c as u32))
+            }
+            c => s.push(c),
+        }
+    }
+    s
+}
+
+fn percent_decode(s: &str) -> String {
+    let b = s.as_bytes();
+    let mut out = Vec::with_capacity(b.len());
+    let mut i = 0;
+    while i < b.len() {
+        if b[i] == b'%' && i + 2 < b.len() {
+            if let Ok(v) = u8::from_str_radix(&s[i + 1..i + 3], 16) {
+                out.push(v);
+                i += 3;
+                continue;
+            }
+        }
+        out.push(b[i]);
+        i += 1;
+    }
+    String::from_utf8_lossy(&out).into_owned()
+}
+
 pub fn path_of_uri(uri: &str) -> String {
-    crate::model::norm_path(uri.strip_prefix("file://").unwrap_or(uri))
+    crate::model::norm_path(&percent_decode(uri.strip_prefix("file://").unwrap_or(uri)))
 }
 
 fn frame(v: &Value) -> Vec<u8> {
@@ -140,6 +172,7 @@ fn frame(v: &Value) -> Vec<u8> {
 }
 
 struct Client<'a> {
+    vscode_uris: bool,
     sim: Rc<Sim>,
     scenario: &'a Scenario,
     hist: Arc<Mutex<History>>,
@@ -240,6 +273,14 @@ impl<'a> Client<'a> {
         self.barrier()
     }
 
+    fn uri(&self, path: &str) -> String {
+        if self.vscode_uris {
+            vscode_uri_of(path)
+        } else {
+            uri_of(path)
+        }
+    }
+
     fn bump_version(&mut self, path: &str, open: bool) -> i64 {
         let v = if open { 1 } else { self.doc_versions.get(path).copied().unwrap_or(0) + 1 };
         self.doc_versions.insert(path.to_string(), v);
@@ -267,7 +308,7 @@ impl<'a> Client<'a> {
                 let version = self.bump_version(path, true);
                 self.notify(
                     "textDocument/didOpen",
-                    json!({"textDocument":{"uri":uri_of(path),"languageId":"tablegen","version":version,"text":text}}),
+                    json!({"textDocument":{"uri":self.uri(path),"languageId":"tablegen","version":version,"text":text}}),
                 );
             }
             Op::Change { path, text } => {
@@ -277,11 +318,11 @@ impl<'a> Client<'a> {
                 let version = self.bump_version(path, false);
                 self.notify(
                     "textDocument/didChange",
-                    json!({"textDocument":{"uri":uri_of(path),"version":version},"contentChanges":[{"text":text}]}),
+                    json!({"textDocument":{"uri":self.uri(path),"version":version},"contentChanges":[{"text":text}]}),
                 );
             }
             Op::Request { kind, path, offset } => {
-                let doc = json!({"uri": uri_of(path)});
+                let doc = json!({"uri": self.uri(path)});
                 let params = match kind {
                     ReqKind::DocumentSymbol | ReqKind::DocumentLink | ReqKind::FoldingRange => {
                         json!({"textDocument": doc})
@@ -311,17 +352,17 @@ impl<'a> Client<'a> {
                 let version = self.bump_version(path, false);
                 self.notify(
                     "textDocument/didChange",
-                    json!({"textDocument":{"uri":uri_of(path),"version":version},"contentChanges":[]}),
+                    json!({"textDocument":{"uri":self.uri(path),"version":version},"contentChanges":[]}),
                 );
             }
             Op::Save { path } => {
-                self.notify("textDocument/didSave", json!({"textDocument":{"uri":uri_of(path)}}));
+                self.notify("textDocument/didSave", json!({"textDocument":{"uri":self.uri(path)}}));
             }
             Op::Close { path } => {
                 self.doc_versions.remove(path);
                 self.open.remove(path);
                 self.sim.with(|st| st.editor_open.remove(&PathBuf::from(path)));
-                self.notify("textDocument/didClose", json!({"textDocument":{"uri":uri_of(path)}}));
+                self.notify("textDocument/didClose", json!({"textDocument":{"uri":self.uri(path)}}));
             }
             Op::DiskWrite { path, text } => {
                 self.sim.with(|st| st.disk.insert(PathBuf::from(path), FileState::Text(text.clone())));
@@ -363,7 +404,7 @@ impl<'a> Client<'a> {
         // closing probe: the outline of the last touched document after everything settled
         self.sync();
         if let Some(path) = self.last_touched.clone() {
-            let id = self.request(ReqKind::DocumentSymbol.method(), json!({"textDocument":{"uri":uri_of(&path)}}), None);
+            let id = self.request(ReqKind::DocumentSymbol.method(), json!({"textDocument":{"uri":self.uri(&path)}}), None);
             self.hist.lock().unwrap().closing_symbol = Some((id, path));
         }
         let last = self.sync();
@@ -446,6 +487,7 @@ pub fn execute(scenario: &Scenario, sched: Sched) -> ExecResult {
                 .spawn(move || server_main(concurrency))
                 .unwrap();
             let mut client = Client {
+                vscode_uris: scen.knobs.vscode_uris,
                 sim,
                 scenario: &scen,
                 hist: hist2.clone(),
